@@ -122,6 +122,8 @@ func (br *BrokerBatchRows) TryAppend(appendFunc func(row *BrokerRow) error) erro
 	if len(br.rows) <= br.rowCount {
 		br.rows = append(br.rows, BrokerRow{})
 	}
+	// the slot may come from a pooled batch: forget the mark of the row it held before
+	br.rows[br.rowCount].IsOutOfTimeRange = false
 	if err := appendFunc(&br.rows[br.rowCount]); err != nil {
 		return err
 	}
